@@ -23,6 +23,7 @@ EXPLANATION = (
     "re-indexing is a violation; (d) order-domain abstraction: the predicate of find_active_points is evaluated on every weak "
     "ordering of {min feature, max feature, cut_1..cut_m} (m <= 3 quick, 4 thorough) and must equal `exists cut: min < cut < "
     "max`. Not decided: the soft-binning weights, the zero-temperature limit.")
+ADOPT = [("C17", ["C17-e"], "the soft bins are probability vectors only if the exponentials neither overflow nor underflow row-wise")]
 ASSUMPTIONS = ["np.any/np.all/min/max depend on their array argument only through order comparisons", "softmax rows are probability vectors"]
 
 D = "gemclus.tree.douglas"
@@ -57,6 +58,18 @@ def ev(node, env):
         if cn in ("np.logical_not",):
             v = ev(node.args[0], env)
             return [not x for x in v] if isinstance(v, list) else not v
+        # counting the cuts that satisfy an order predicate depends on the data only through the ordering as well; the counts are
+        # compared with each other or with constants
+        if cn in ("np.sum", "np.count_nonzero", "sum") and len(node.args) == 1 and not node.keywords:
+            v = ev(node.args[0], env)
+            if isinstance(v, list) and all(isinstance(x, bool) for x in v):
+                return _Count(sum(1 for x in v if x))
+        if isinstance(node.func, ast.Attribute) and node.func.attr == "sum" and not node.args and not node.keywords:
+            v = ev(node.func.value, env)
+            if isinstance(v, list) and all(isinstance(x, bool) for x in v):
+                return _Count(sum(1 for x in v if x))
+        if cn in ("np.searchsorted",):
+            raise ValueError(f"idiom outside the order-domain table: {norm_src(node)}")
         raise ValueError(f"idiom outside the order-domain table: {norm_src(node)}")
     if isinstance(node, ast.Compare) and len(node.ops) == 1:
         a, b = ev(node.left, env), ev(node.comparators[0], env)
@@ -79,6 +92,10 @@ def ev(node, env):
     if isinstance(node, ast.Subscript):
         raise ValueError(f"positional access outside the order domain: {norm_src(node)}")
     raise ValueError(f"idiom outside the order-domain table: {norm_src(node)}")
+
+
+class _Count(int):
+    """a number of cuts (comparable with other counts and with integer constants only)"""
 
 
 def _bin(a, b, f):
